@@ -118,6 +118,24 @@ pub mod fixed {
     /// reads the clock twice for one decision sees two different instants, as on a real machine.
     pub static REAL_TICK_NS: AtomicI64 = AtomicI64::new(0);
 
+    /// Time the machine has spent suspended: CLOCK_BOOTTIME = monotonic + this.
+    pub static BOOT_OFFSET_NS: AtomicI64 = AtomicI64::new(0);
+    /// CLOCK_REALTIME_COARSE lags CLOCK_REALTIME by up to a kernel tick: it reads this much earlier.
+    pub static REAL_COARSE_LAG_NS: AtomicI64 = AtomicI64::new(0);
+
+    pub fn set_boot_offset(ns: i64) {
+        BOOT_OFFSET_NS.store(ns, Ordering::SeqCst);
+    }
+
+    pub fn set_real_coarse_lag(ns: i64) {
+        REAL_COARSE_LAG_NS.store(ns, Ordering::SeqCst);
+    }
+
+    fn shifted(sec: i64, nsec: i64, by: i64) -> (i64, i64) {
+        let t = nsec + by;
+        (sec + t.div_euclid(1_000_000_000), t.rem_euclid(1_000_000_000))
+    }
+
     pub fn set_real_tick(ns: i64) {
         REAL_TICK_NS.store(ns, Ordering::SeqCst);
     }
@@ -143,7 +161,13 @@ pub mod fixed {
                     REAL_SEC.store(s + t.div_euclid(1_000_000_000), Ordering::SeqCst);
                     REAL_NSEC.store(t.rem_euclid(1_000_000_000), Ordering::SeqCst);
                 }
-                (s, n)
+                if clk == libc::CLOCK_REALTIME_COARSE {
+                    shifted(s, n, -REAL_COARSE_LAG_NS.load(Ordering::SeqCst))
+                } else {
+                    (s, n)
+                }
+            } else if clk == libc::CLOCK_BOOTTIME || clk == libc::CLOCK_BOOTTIME_ALARM {
+                shifted(MONO_SEC.load(Ordering::SeqCst), MONO_NSEC.load(Ordering::SeqCst), BOOT_OFFSET_NS.load(Ordering::SeqCst))
             } else {
                 (MONO_SEC.load(Ordering::SeqCst), MONO_NSEC.load(Ordering::SeqCst))
             }
